@@ -6,6 +6,7 @@
 import PtModel.Sexp
 import PtModel.Lower
 import PtModel.Spec
+import PtModel.Affine
 import PtModel.HandleDist
 import PtModel.HandleEq
 import PtModel.HandleMapper
@@ -81,6 +82,22 @@ def handleSpec : List Sx → Option String
     some (showArr (Spec.broadcastTo (← new.asNats?) (← parseArr shp vals)))
   | _ => none
 
+partial def parseAExpr : Sx → Option AExpr
+  | .list [.atom "lit", n] => n.asInt?.map .lit
+  | .list [.atom "param", .atom x] => some (.param x)
+  | .list [.atom "add", a, b] => do some (.add (← parseAExpr a) (← parseAExpr b))
+  | .list [.atom "sub", a, b] => do some (.sub (← parseAExpr a) (← parseAExpr b))
+  | .list [.atom "scale", k, a] => do some (.scale (← k.asInt?) (← parseAExpr a))
+  | _ => none
+
+def showBool (b : Bool) : String := if b then "#t" else "#f"
+
+def handleAff : List Sx → Option String
+  | [.atom "eq", a, b] => do some (showBool (affEq (← parseAExpr a) (← parseAExpr b)))
+  | [.atom "nonneg", a] => do some (showBool (isNonNeg (← parseAExpr a)))
+  | [.atom "nonpos", a] => do some (showBool (isNonNeg (.scale (-1) (← parseAExpr a))))
+  | _ => none
+
 def handle (q : Sx) : String :=
   match q with
   | .list (.atom "evalil" :: shp :: e :: .list binds :: []) =>
@@ -114,6 +131,10 @@ def handle (q : Sx) : String :=
      | none => "err:parse")
   | .list (.atom "spec" :: args) =>
     (match handleSpec args with
+     | some r => "ok " ++ r
+     | none => "err:parse")
+  | .list (.atom "aff" :: args) =>
+    (match handleAff args with
      | some r => "ok " ++ r
      | none => "err:parse")
   | .list (.atom "dist" :: args) =>
